@@ -141,6 +141,8 @@ class Ctx:
             finally:
                 if stdin_path:
                     stdin.close()
+        if os.environ.get("VERIF_VERBOSE"):
+            log("t+%.0fs harness %s done" % (time.time() - self.t0, args[:1]))
         res = {"rc": rc, "mismatches": [], "panics": [], "summary": None, "drift": [], "out_path": out_path,
                "stderr": err[-2000:] if err else "", "args": args}
         for line in open(out_path, errors="replace"):
@@ -204,6 +206,8 @@ class Ctx:
                 res["errors"].append(line.strip())
         if p.returncode == 124:
             raise ToolError("TLC timed out after %ss on %s" % (timeout, module))
+        if os.environ.get("VERIF_VERBOSE"):
+            log("t+%.0fs tlc %s %s done in %.1fs" % (time.time() - self.t0, module, name, res["wall_s"]))
         self.cov["steps"].append({"step": "tlc " + module + " " + cfg, "generated": res["generated"],
                                   "distinct": res["distinct"], "depth": res["depth"], "wall_s": res["wall_s"]})
         return res
